@@ -217,7 +217,8 @@ def run(pid, tier):
             if not quick:
                 sweep = concurrent.futures.ThreadPoolExecutor(max_workers=8)
                 parts = 256
-                sweep_f = [sweep.submit(lib.run_driver, exe, ['sweep32', p, parts], None, 900, SAN_ENV) for p in range(parts)]
+                sexe = lib.build('drv_format', ['drv_format.c'], san=False, extra=['-O2'])      # 2.6e10 calls: optimised build, the byte behind the buffer is checked by the driver
+                sweep_f = [sweep.submit(lib.run_driver, sexe, ['sweep32', p, parts], None, 900, SAN_ENV) for p in range(parts)]
             args = ['int', 14, seed, 4000 if quick else 160000, 'near' if quick else 'all', 70, 1]
             if drive(rep, exe, args, w + '/int.ndjson', 'int-default'):
                 validate(rep, pid, w + '/int.ndjson', 'int', 'default', args, notes)
@@ -239,7 +240,7 @@ def run(pid, tier):
                             calls += j['sweep_calls']; bad += j['sweep_bad']
                 rep.cov['sweep32'] = dict(values=2 ** 32, calls=calls, mismatches=bad,
                                           what='every 32-bit value through SCPI_Int32ToStr and SCPI_UInt32ToStrBase(2, 8, 10, 16) into a buffer with room and, for one of the five per value, a shorter one; '
-                                               'compared in C with the driver reference formatter whose texts TLC checks equal to CanonDigits in every mode-x record (trusted link)')
+                                               'compared in C (optimised build without sanitizers, the byte behind the buffer checked) with the driver reference formatter whose texts TLC checks equal to CanonDigits in every mode-x record (trusted link)')
                 rep.cov['evaluations'] += calls
         else:
             runs = [('default', exe)]
